@@ -81,7 +81,10 @@ def verdict (j : Json) (allTypedefs : Bool) : String :=
   let d := collect j
   let fault := jstr j "fault"
   if fault = "dev-race" || fault = "import-self" then "any"
-  else if fault = "orphan-submodule" then "err:ref"      -- a submodule of a module that is not among those supplied
+  else if fault = "orphan-submodule" then "err:ref"
+  -- the data definitions of a submodule reach the schema only when the module itself includes it (`ProcessModuleIncludes`)
+  else if fault = "sub-identity" && ((jarr j "mods").any fun s => (jarr s "subs").any fun u =>
+      jbool u "ident" && ((jarr s "includes").map strOf).contains (jstr u "name")) then "err:ref"      -- a submodule of a module that is not among those supplied
   else if hasDup (d.tdefs.map (·.1)) || hasDup (d.groups.map (·.1)) then "err:dup"
   else if d.includes.any (fun (_, is) => is.any fun i => (d.includes.lookup i).isNone) then "err:ref"
   else if anyCycle d.includes (d.includes.map (·.1)) then "err:import-cycle"
